@@ -15,6 +15,7 @@ import Driver.Crash
 import Driver.C03
 import Driver.C02
 import Driver.C13
+import Driver.C14
 /-! Line-protocol driver. Usage: `drv <property>`; stdin: `op args… | impl-output`;
     stdout: one `MISMATCH`/`MONITOR` line per problem and a final `DONE` summary with coverage tags. -/
 open Drv
@@ -107,6 +108,9 @@ def main (args : List String) : IO UInt32 := do
   | "C03" :: mode => finish (← loopStateful (Drv.C03.step (mode.headD "auto")) h {} {})
   | "C02" :: qs => finish (← loopStateless (Drv.C02.step (Drv.C02.parseQuirks (",".intercalate qs))) h {})
   | "C13" :: mode => finish (← loopStateless (Drv.C13.step (mode.headD "auto")) h {})
+  | ["C14"] => finish (← loopStateless (Drv.C14.step Drv.C14.asImpl) h {})
+  | ["C14", "noguard"] => finish (← loopStateless (Drv.C14.step { Drv.C14.asImpl with guard := false }) h {})
+  | ["C14", "ideal"] => finish (← loopStateless (Drv.C14.step Drv.C14.idealQ) h {})
   | ["inrange"] => finish (← loopStateless Drv.Store.inRangeStep h {})
   | ["store", prop] => finish (← loopStateful (Drv.Store.step prop) h {} {})
   | _ => IO.eprintln "usage: drv <property>"; return 2
